@@ -5,7 +5,8 @@ EXTENDS Naturals, Sequences, FiniteSets, TLC, Json, Randomization
 
  A heap has three objects over the mapped model of harness/models/vmodel.py:
     A (and its subclass B):  one: Optional[A]   other: Optional[C]   many: List[C]
-    C:                       back: Optional[A]  m: Optional[M]       peers: List[A]
+    C (and W, a mapped subclass of C whose direct base is an unmapped intermediate class):
+                             back: Optional[A]  m: Optional[M]       peers: List[A]
     M (alternatively mapped through a mapping class) and its normally mapped subclass N:  ref: Optional[A]
  (0 = None; lists have up to two entries, repetitions allowed).  `root` is the object that is converted.
  Layer R: the round trip yields an ISOMORPHIC graph - same classes, same references, same list order, same
@@ -22,15 +23,16 @@ VARIABLES cls, rec, root
 vars == <<cls, rec, root>>
 Obj == 1..3
 ClsChoices == { <<"A", "C", "M">>, <<"A", "B", "C">>, <<"B", "C", "M">>, <<"A", "A", "C">>, <<"A", "C", "C">>, <<"M", "A", "C">>,
-                <<"C", "M", "B">>, <<"M", "C", "M">>, <<"A", "C", "N">>, <<"N", "C", "B">>, <<"N", "C", "M">> }
+                <<"C", "M", "B">>, <<"M", "C", "M">>, <<"A", "C", "N">>, <<"N", "C", "B">>, <<"N", "C", "M">>,
+                <<"A", "W", "M">>, <<"W", "A", "C">>, <<"B", "W", "W">> }
 AO(c) == { o \in Obj : c[o] \in {"A", "B"} }
-CO(c) == { o \in Obj : c[o] = "C" }
+CO(c) == { o \in Obj : c[o] \in {"C", "W"} }        \* W = a mapped subclass of C whose direct base is an unmapped intermediate class
 MO(c) == { o \in Obj : c[o] \in {"M", "N"} }        \* N = a normally mapped subclass of the alternatively mapped M
 Opt(S) == S \cup {0}
 Lists(S) == { <<>> } \cup { <<a>> : a \in S } \cup { <<a, b>> : a \in S, b \in S }
 Empty == [one |-> 0, other |-> 0, many |-> <<>>, back |-> 0, m |-> 0, peers |-> <<>>, ref |-> 0]
 Recs(c, o) == IF c[o] \in {"A", "B"} THEN { [Empty EXCEPT !.one = a, !.other = b, !.many = l] : a \in Opt(AO(c)), b \in Opt(CO(c)), l \in Lists(CO(c)) }
-              ELSE IF c[o] = "C" THEN { [Empty EXCEPT !.back = a, !.m = b, !.peers = l] : a \in Opt(AO(c)), b \in Opt(MO(c)), l \in Lists(AO(c)) }
+              ELSE IF c[o] \in {"C", "W"} THEN { [Empty EXCEPT !.back = a, !.m = b, !.peers = l] : a \in Opt(AO(c)), b \in Opt(MO(c)), l \in Lists(AO(c)) }
               ELSE { [Empty EXCEPT !.ref = a] : a \in Opt(AO(c)) }
 Space(c) == Recs(c, 1) \X Recs(c, 2) \X Recs(c, 3) \X Obj
 Init == \E c \in ClsChoices :
@@ -44,7 +46,7 @@ Refs(o) == LET r == rec[o] IN
   IF cls[o] \in {"A", "B"}
   THEN (IF r.one # 0 THEN << <<"one", 0, r.one>> >> ELSE <<>>) \o (IF r.other # 0 THEN << <<"other", 0, r.other>> >> ELSE <<>>)
        \o [i \in DOMAIN r.many |-> <<"many", i, r.many[i]>>]
-  ELSE IF cls[o] = "C"
+  ELSE IF cls[o] \in {"C", "W"}
   THEN (IF r.back # 0 THEN << <<"back", 0, r.back>> >> ELSE <<>>) \o (IF r.m # 0 THEN << <<"m", 0, r.m>> >> ELSE <<>>)
        \o [i \in DOMAIN r.peers |-> <<"peers", i, r.peers[i]>>]
   ELSE (IF r.ref # 0 THEN << <<"ref", 0, r.ref>> >> ELSE <<>>)
@@ -67,7 +69,8 @@ RoundTripIso == Result.ph = {}          \* the only way the result can differ fr
 \* ---- SQL: rows per table for the reachable objects (joined-table inheritance: a B has a row in A's and in B's table)
 Rows == [VA |-> Cardinality({ o \in Reachable : cls[o] \in {"A", "B"} }),
          VB |-> Cardinality({ o \in Reachable : cls[o] = "B" }),
-         VC |-> Cardinality({ o \in Reachable : cls[o] = "C" }),
+         VC |-> Cardinality({ o \in Reachable : cls[o] \in {"C", "W"} }),
+         VW |-> Cardinality({ o \in Reachable : cls[o] = "W" }),
          VM |-> Cardinality({ o \in Reachable : cls[o] \in {"M", "N"} }),
          VN |-> Cardinality({ o \in Reachable : cls[o] = "N" })]
 \* the self-referential single reference `one`: two objects of the hierarchy pointing at the same target (finding F09)
